@@ -699,6 +699,16 @@ def compute_l2_key(
     l1_key = rk.l1_key
     l2 = rk.l2
     l2_key = rk.l2_key
+
+    # The seed keys can only be used to derive keys at or before their own
+    # position and every index must be in the range MS-GKDI defines.
+    if not all(0 <= idx <= 31 for idx in (request_l1, request_l2, l1, l2)):
+        raise ValueError(f"L1/L2 index is not in the valid range: requested ({request_l1}, {request_l2}), seed ({l1}, {l2})")
+    if request_l1 > l1 or (request_l1 == l1 and request_l2 > l2):
+        raise ValueError(
+            f"Cannot derive the L2 key ({request_l1}, {request_l2}) from the seed key at ({l1}, {l2})"
+        )
+
     reseed_l2 = l2 == 31 or rk.l1 != request_l1
 
     # MS-GKDI 2.2.4 Group key Envelope
